@@ -69,12 +69,19 @@ CLAIMED = {
         technique="contract-based deductive verification: loop invariant over a ghost trace, exceptional paths through try/except/finally, VCs discharged by z3",
         design="3/C13",
     ),
+    "C20": dict(
+        category="proof",
+        text="Symbolic execution of the config builders and schema classes with opaque argument atoms: get_data_config / get_trainer_config / get_model_config put every supplied argument unmodified at its documented path, every option without a builder argument equals the default the attrs schema declares, each backbone preset (12) x head type (4) yields exactly that preset/head with schema defaults and exactly one backbone/head set; get_aug_config enables every augmentation named in a list of ANY length and order (loop invariants over a ghost list whose elements are nondeterministic names) and every single name; validators reject exactly out-of-range probabilities and negative scales; the oneof unions reject more than one member. The order-dependent disabling of rotation/scale/translate in the pinned tree was found by the loop invariant and repaired (fix: commit in known_findings.txt).",
+        note="attrs semantics (define/field/validators/converters/__attrs_post_init__) are modelled by the interpreter from the class ASTs; argument values are opaque atoms (identity only) or symbolic numbers. Not decided: OmegaConf structured merge / YAML round-trip losslessness and idempotence (verify_training_cfg; library behaviour), the lr_scheduler argument, dict-form backbone/head arguments, builder defaults that intentionally differ from schema defaults.",
+        technique="contract-based deductive verification: symbolic execution of the real Python source (attrs classes synthesised from their ASTs), loop invariants, VCs discharged by z3",
+        design="3/C20",
+    ),
 }
 
 NOT_APPLICABLE = {
     "C19": "no pre/postcondition on a function of this repository expresses it: training completion, artifacts and crash-point file contents live in Lightning/wandb/OmegaConf and the file system (DESIGN.md section 5)",
 }
-NOT_BUILT = ["C02", "C03", "C08", "C09", "C10", "C12", "C14", "C16", "C18", "C20"]
+NOT_BUILT = ["C02", "C03", "C08", "C09", "C10", "C12", "C14", "C16", "C18"]
 
 
 def main():
